@@ -151,6 +151,153 @@ proof fn lemma_level_step(s: Seq<HL>, start: int, i: int)
     }
 }
 
+// ---- optional lemma of C06: under injectivity of the interior hash and separation of leaf from interior hashes (both are
+// collision-resistance HYPOTHESES of the lemma, not facts about blake3), the aggregate hash determines the chunk list ------------
+uninterp spec fn is_leaf(h: MerkleHash) -> bool;
+spec fn H_injective() -> bool { forall|g1: Seq<HL>, g2: Seq<HL>| #[trigger] H_int(g1) == #[trigger] H_int(g2) ==> g1 == g2 }
+spec fn leaf_sep() -> bool { forall|g: Seq<HL>| !is_leaf(#[trigger] H_int(g)) }
+spec fn leafy(s: Seq<HL>) -> bool { forall|j: int| 0 <= j < s.len() ==> is_leaf((#[trigger] s[j]).h) }
+spec fn no_leaf(s: Seq<HL>) -> bool { forall|j: int| 0 <= j < s.len() ==> !is_leaf((#[trigger] s[j]).h) }
+spec fn gend(s: Seq<HL>, start: int, i: int) -> int decreases s.len() - i {
+    if i + 1 >= s.len() || cut_at(s, start, i) { i } else { gend(s, start, i + 1) }
+}
+proof fn lemma_unfold(s: Seq<HL>, start: int, i: int)
+    requires 0 <= start <= i < s.len(),
+    ensures i <= gend(s, start, i) < s.len(),
+        level_acc(s, start, i) == seq![parent(s.subrange(start, gend(s, start, i) + 1))] + level_acc(s, gend(s, start, i) + 1, gend(s, start, i) + 1),
+    decreases s.len() - i,
+{
+    if !cut_at(s, start, i) { lemma_unfold(s, start, i + 1); }
+}
+proof fn lemma_level_no_leaf(s: Seq<HL>, start: int, i: int)
+    requires leaf_sep(), 0 <= start <= i,
+    ensures no_leaf(level_acc(s, start, i)),
+    decreases s.len() - i,
+{
+    if i < s.len() {
+        if cut_at(s, start, i) {
+            lemma_level_no_leaf(s, i + 1, i + 1);
+            let p = parent(s.subrange(start, i + 1)); let rest = level_acc(s, i + 1, i + 1); let l = level_acc(s, start, i);
+            assert forall|j: int| 0 <= j < l.len() implies !is_leaf((#[trigger] l[j]).h) by {
+                if j == 0 { assert(l[0] == p); } else { assert(l[j] == rest[j - 1]); }
+            }
+        } else { lemma_level_no_leaf(s, start, i + 1); }
+    }
+}
+// one level is injective: equal parent lists come from equal child lists
+proof fn lemma_level_inj_from(s: Seq<HL>, t: Seq<HL>, a: int)
+    requires H_injective(), 0 <= a <= s.len(), a <= t.len(), s.subrange(0, a) == t.subrange(0, a), level_acc(s, a, a) == level_acc(t, a, a),
+    ensures s == t,
+    decreases s.len() - a,
+{
+    if a == s.len() {
+        if a < t.len() { lemma_level_acc_len(t, a, a); assert(false); }
+        assert(s =~= s.subrange(0, a)); assert(t =~= t.subrange(0, a));
+    } else {
+        lemma_level_acc_len(s, a, a);
+        if a == t.len() { assert(level_acc(t, a, a).len() == 0); assert(false); }
+        lemma_unfold(s, a, a); lemma_unfold(t, a, a);
+        let es = gend(s, a, a); let et = gend(t, a, a);
+        let gs = s.subrange(a, es + 1); let gt = t.subrange(a, et + 1);
+        let ls = level_acc(s, a, a); let lt = level_acc(t, a, a);
+        let rs = level_acc(s, es + 1, es + 1); let rt = level_acc(t, et + 1, et + 1);
+        assert(ls[0] == parent(gs)); assert(lt[0] == parent(gt));
+        assert(H_int(gs) == H_int(gt));
+        assert(gs == gt);
+        assert(gs.len() == gt.len());
+        assert(es == et);
+        assert(s.subrange(0, es + 1) =~= s.subrange(0, a) + gs);
+        assert(t.subrange(0, et + 1) =~= t.subrange(0, a) + gt);
+        assert(rs =~= ls.subrange(1, ls.len() as int));
+        assert(rt =~= lt.subrange(1, lt.len() as int));
+        lemma_level_inj_from(s, t, es + 1);
+    }
+}
+proof fn lemma_level_inj(s: Seq<HL>, t: Seq<HL>)
+    requires H_injective(), level(s) == level(t),
+    ensures s == t,
+{
+    assert(s.subrange(0, 0) =~= t.subrange(0, 0));
+    lemma_level_inj_from(s, t, 0);
+}
+spec fn tower(s: Seq<HL>, k: nat) -> Seq<HL> decreases k { if k == 0 { s } else { level(tower(s, (k - 1) as nat)) } }
+proof fn lemma_tower_comm(s: Seq<HL>, k: nat)
+    ensures tower(level(s), k) == level(tower(s, k)),
+    decreases k,
+{
+    if k > 0 { lemma_tower_comm(s, (k - 1) as nat); }
+}
+// equal roots: one list is some level of the tree over the other
+proof fn lemma_root_eq_tower(s: Seq<HL>, t: Seq<HL>) -> (r: (nat, bool))
+    requires H_injective(), s.len() >= 1, t.len() >= 1, consistent(s), consistent(t), root(s).h == root(t).h,
+    ensures r.1 ==> s == tower(t, r.0), !r.1 ==> t == tower(s, r.0),
+    decreases s.len() + t.len(),
+{
+    if s.len() == 1 && t.len() == 1 {
+        assert(s[0].n == len_of(s[0].h)); assert(t[0].n == len_of(t[0].h));
+        assert(s =~= t); assert(tower(t, 0) == t);
+        (0, true)
+    } else if s.len() >= 2 && t.len() >= 2 {
+        lemma_level_len(s); lemma_level_len(t);
+        let (k, b) = lemma_root_eq_tower(level(s), level(t));
+        if b {
+            lemma_tower_comm(t, k);
+            lemma_level_inj(s, tower(t, k));
+        } else {
+            lemma_tower_comm(s, k);
+            lemma_level_inj(t, tower(s, k));
+        }
+        (k, b)
+    } else if s.len() == 1 {
+        lemma_level_len(t);
+        let (k, b) = lemma_root_eq_tower(s, level(t));
+        if b {
+            lemma_tower_comm(t, k);
+            assert(tower(t, (k + 1) as nat) == level(tower(t, k)));
+            ((k + 1) as nat, true)
+        } else if k == 0 {
+            assert(tower(s, 0) == s); assert(tower(t, 0) == t); assert(tower(t, 1) == level(tower(t, 0)));
+            (1, true)
+        } else {
+            assert(tower(s, k) == level(tower(s, (k - 1) as nat)));
+            lemma_level_inj(t, tower(s, (k - 1) as nat));
+            ((k - 1) as nat, false)
+        }
+    } else {
+        lemma_level_len(s);
+        let (k, b) = lemma_root_eq_tower(level(s), t);
+        if !b {
+            lemma_tower_comm(s, k);
+            assert(tower(s, (k + 1) as nat) == level(tower(s, k)));
+            ((k + 1) as nat, false)
+        } else if k == 0 {
+            assert(tower(s, 0) == s); assert(tower(t, 0) == t); assert(tower(s, 1) == level(tower(s, 0)));
+            (1, false)
+        } else {
+            assert(tower(t, k) == level(tower(t, (k - 1) as nat)));
+            lemma_level_inj(s, tower(t, (k - 1) as nat));
+            ((k - 1) as nat, true)
+        }
+    }
+}
+// C06 "changing, reordering, inserting or dropping any chunk changes the aggregate hash", relative to the two hypotheses
+proof fn lemma_root_injective(s: Seq<HL>, t: Seq<HL>)
+    requires H_injective(), leaf_sep(), s.len() >= 1, t.len() >= 1, consistent(s), consistent(t), leafy(s), leafy(t),
+        root(s).h == root(t).h,
+    ensures /*@C06*/ s == t,
+{
+    let (k, b) = lemma_root_eq_tower(s, t);
+    if k > 0 {
+        if b {
+            lemma_level_no_leaf(tower(t, (k - 1) as nat), 0, 0);
+            assert(is_leaf(s[0].h)); assert(!is_leaf(tower(t, k)[0].h));
+        } else {
+            lemma_level_no_leaf(tower(s, (k - 1) as nat), 0, 0);
+            assert(is_leaf(t[0].h)); assert(!is_leaf(tower(s, k)[0].h));
+        }
+    }
+}
+
 // ---- nodes ----------------------------------------------------------------------------------------------------------------------
 //@ extract merkledb/src/merklenode.rs type MerkleNodeId
 //@ end
